@@ -18,8 +18,8 @@ RULE = (
     "accepts x {empty allowed, not allowed} x length declarations relative to the base cell's length L {none, exact "
     "L, exact L-1, exact L+1, 'L...', 'L+1...', '...L', '...L-1', two items excluding L, two items including L} "
     "(fixed: widths L, L+2, L-1) x allowed characters {none, everything but '#', everything but a character of the "
-    "base cell} x formats {delimited, fixed, excel, ods} x cells {'', blanks only, base cell, base cell one shorter "
-    "/ one longer where the type permits, base cell with '#' substituted at every position}; observed through "
+    "base cell, printable ASCII only} x formats {delimited, fixed, excel, ods} x cells {'', blanks only, base cell, base cell one shorter "
+    "/ one longer where the type permits, base cell with '#' substituted at every position, base cell with tab / no-break space / em space at either edge}; observed through "
     "FieldFormat.validated and through cutplace.rows(on_error='yield') on streams (delimited, fixed) and generated "
     "files (ods, xlsx). Hypothesis adds random lengths, character ranges and cells. Oracle: guards of "
     "vlib/model_fields.verdict. Non-trivial: a case in which a guard and the type rule disagree (the rule alone "
@@ -67,6 +67,8 @@ def _allowed_settings(base, fixed):
     for ch in ("#", base[1]):
         code = ord(ch)
         settings.append(("...%d, %d..." % (code - 1, code + 1), [[None, code - 1], [code + 1, None]]))
+    # printable ASCII only: tab, no-break space and em space are white space for str.strip() but not allowed
+    settings.append(("32...126", [[32, 126]]))
     return settings
 
 
@@ -104,6 +106,9 @@ def _configs():
                             cells += [shorter, longer]
                         for i in range(len(base)):
                             cells.append(base[:i] + "#" + base[i + 1:])
+                        for edge in "\t\xa0\u2003":
+                            cells.append(base[:-1] + edge)
+                            cells.append(edge + base[1:])
                         if fixed:
                             width = length_items[0][0]
                             cells += [c + " " * (width - len(c)) for c in list(cells) if len(c) < width]
